@@ -99,6 +99,8 @@ def explore(ctx):
             data = o.after.get(nme)
             if data and data[2] is not None and b'#scribble' in data[2]:
                 ctx.violation('test-modified-candidate-committed', f'{nme}: the test appended to the candidate in its own directory, exited 0, and the modified candidate was committed', rep)
+        for (nme, cwd) in (o.scribble_leaks or [])[:1]:
+            ctx.violation('test-write-reached-user-file', f'the test appended to {nme} inside its own directory {os.path.basename(cwd)} and the file {nme} in the working directory changed with it', rep)
         if 'junk.tmp' in o.after:
             ctx.violation('test-littered-workdir', 'junk.tmp written by the test appears in the working directory', rep)
         ctx.count(f'script:k={len(sc["files"])}:N={sc["cfg"]["N"]}')
